@@ -464,6 +464,21 @@ func (c *mapRangeCls) stmt(s ast.Stmt) {
 			}
 			return
 		}
+		// a helper of the module whose whole body is one commutative cell update m[k] = max/min(m[k], v) (or m[k] += v)
+		// on its own parameters, called with arguments that other iterations cannot influence
+		if fn, ok := calleeObj(c.info, call).(*types.Func); ok {
+			if fd := c.m.Decl[fn]; fd != nil && isCommutativeCellUpdater(fd) {
+				okArgs := true
+				for _, a := range call.Args {
+					if !c.pure(a, nil) {
+						okArgs = false
+					}
+				}
+				if okArgs {
+					return
+				}
+			}
+		}
 		if name == "" {
 			name = types.ExprString(call.Fun)
 		}
@@ -578,6 +593,58 @@ func runDet1(m *Model, r *RuleResult) {
 			})
 		}
 	}
+}
+
+// isCommutativeCellUpdater: func(m M, k K, v V) { m[k] = max(m[k], v) } and the min / += / |= spellings: applying it for a set of
+// (k, v) pairs gives the same map in any order.
+func isCommutativeCellUpdater(fd *ast.FuncDecl) bool {
+	if fd.Body == nil || len(fd.Body.List) != 1 || fd.Recv != nil {
+		return false
+	}
+	as, ok := fd.Body.List[0].(*ast.AssignStmt)
+	if !ok || len(as.Lhs) != 1 || len(as.Rhs) != 1 {
+		return false
+	}
+	ix, ok := as.Lhs[0].(*ast.IndexExpr)
+	if !ok {
+		return false
+	}
+	params := map[string]bool{}
+	for _, fl := range fd.Type.Params.List {
+		for _, n := range fl.Names {
+			params[n.Name] = true
+		}
+	}
+	isParam := func(e ast.Expr) bool {
+		id, ok := e.(*ast.Ident)
+		return ok && params[id.Name]
+	}
+	if !isParam(ix.X) || !isParam(ix.Index) {
+		return false
+	}
+	switch as.Tok {
+	case token.ADD_ASSIGN, token.OR_ASSIGN, token.AND_ASSIGN:
+		return isParam(as.Rhs[0])
+	case token.ASSIGN:
+		call, ok := as.Rhs[0].(*ast.CallExpr)
+		if !ok || len(call.Args) != 2 {
+			return false
+		}
+		id, ok := call.Fun.(*ast.Ident)
+		if !ok || (id.Name != "max" && id.Name != "min") {
+			return false
+		}
+		self, other := 0, 0
+		for _, a := range call.Args {
+			if sameExpr(a, ix) {
+				self++
+			} else if isParam(a) {
+				other++
+			}
+		}
+		return self == 1 && other == 1
+	}
+	return false
 }
 
 // totalSorts: library sorts whose result is a function of the multiset of elements (total order on a basic element type).
